@@ -383,7 +383,7 @@ class _numpy_binning:
         e = elems(attr(result, "_numpy_bins"))
         cs = [typename(result) == "NumpyBinning", len(e) == n + 1, e[0] == lo, e[n] == hi, attr(result, "_includes_right_edge") is True]
         for k in range(n + 1):
-            cs.append(e[k] * n == lo * n + k * (hi - lo))
+            cs.append(close(e[k] * n, lo * n + k * (hi - lo)))
         for k in range(n):
             cs.append(e[k] < e[k + 1])
         if not hasattr(old, "range"):
